@@ -789,6 +789,54 @@ Proof.
   - exact (get_intervals_in_range St randint Hr k mi sl s l s' Hmi H).
 Qed.
 
+(* ================================================================================ (iv) *)
+
+Section CutoffProofs.
+  Variable setv : nat -> Z -> Z.
+  Variable kcond : nat -> Z -> bool.
+  Variable kcnt : nat -> Z -> nat.
+
+  Lemma kiter_keeps : forall (f : Z -> Z * bool), (forall s, fst (f s) = s) ->
+    forall n s, fst (kiter n f s) = s.
+  Proof.
+    intros f Hf. induction n as [|n IH]; intro s; cbn; [reflexivity|].
+    specialize (Hf s). destruct (f s) as [s1 ab]. cbn in Hf. subst s1.
+    destruct ab; [reflexivity|apply IH].
+  Qed.
+
+  (* a guarded program leaves the cutoff where it was: for all stored values, conditions, loop
+     counts, and wherever it is left by return / raise *)
+  Lemma guarded_keeps_cutoff : forall p, guarded p = true ->
+    forall s, fst (kexec setv kcond kcnt p s) = s.
+  Proof.
+    induction p as [|k| |a IHa b IHb|c a IHa b IHb|n b IHb|b IHb|b IHb]; intros G s; cbn in G |- *.
+    - reflexivity.
+    - discriminate.
+    - reflexivity.
+    - apply andb_true_iff in G. destruct G as [Ga Gb]. specialize (IHa Ga s).
+      destruct (kexec setv kcond kcnt a s) as [s1 ab]. cbn in IHa. subst s1.
+      destruct ab; [reflexivity|apply IHb; exact Gb].
+    - apply andb_true_iff in G. destruct G as [Ga Gb].
+      destruct (kcond c s); [apply IHa|apply IHb]; assumption.
+    - apply kiter_keeps. intro s'. apply IHb. exact G.
+    - destruct (kexec setv kcond kcnt b s) as [s1 ab]. reflexivity.
+    - cbn. apply IHb. exact G.
+  Qed.
+End CutoffProofs.
+
+(* not trivially so: one assignment outside a detached region moves the cutoff, also when the
+   same code further down is wrapped (the shape of seed C12-d: the wrapper moved to another
+   caller) *)
+Lemma unguarded_moves_cutoff :
+  exists setv kcond kcnt s,
+    fst (kexec setv kcond kcnt (KCall (KSeq (KSet 0) (KLoop 0 (KCall (KSet 1))))) s) <> s /\
+    fst (kexec setv kcond kcnt (KCall (KDetached (KSeq (KSet 0) (KLoop 0 (KCall (KSet 1)))))) s) = s /\
+    guarded (KCall (KSeq (KSet 0) (KLoop 0 (KCall (KSet 1))))) = false.
+Proof.
+  exists (fun k s => (s + 1 + Z.of_nat k)%Z), (fun _ _ => true), (fun _ _ => 2), 5%Z.
+  vm_compute. repeat split; congruence.
+Qed.
+
 (* ================================================================ the generic shapes *)
 
 Lemma copy_first_is_safe : forall h, is_safe false (copy_first h) = true.
